@@ -34,6 +34,7 @@ CASES = [
     ("tag_0", False, True, '#[derive(Encode, Decode)]\n#[ssz(enum_behaviour = "tag")]\nenum E {}\n', enum_defn("tag", [])),
     ("tag_128", True, True, '#[derive(Encode, Decode)]\n#[ssz(enum_behaviour = "tag")]\nenum E {\n%s\n}\n' % variants(128), enum_defn("tag", [[]] * 128)),
     ("tag_129", False, True, '#[derive(Encode, Decode)]\n#[ssz(enum_behaviour = "tag")]\nenum E {\n%s\n}\n' % variants(129), enum_defn("tag", [[]] * 129)),
+    ("tag_with_discriminants", True, True, '#[derive(Encode, Decode)]\n#[ssz(enum_behaviour = "tag")]\nenum E { A = 200, B = 3, C }\n', enum_defn("tag", [[]] * 3)),
     ("tag_variant_with_field", False, False, '#[derive(Encode, Decode)]\n#[ssz(enum_behaviour = "tag")]\nenum E { A, B(u8) }\n', enum_defn("tag", [[], [U8]])),
     ("enum_no_behaviour", False, True, '#[derive(Encode, Decode)]\nenum E { A(u8) }\n', "(enum 0 absent (v (uint 1)))"),
     ("enum_unknown_behaviour", False, False, '#[derive(Encode, Decode)]\n#[ssz(enum_behaviour = "onion")]\nenum E { A(u8) }\n', "(enum 0 other (v (uint 1)))"),
